@@ -71,9 +71,27 @@ def libname(j):
 # Only the first edge of a walk may be a typedef edge, all later edges are inheritance
 # edges (the class C_t_u.. has to exist).  Every class lives in its own header
 # l<v0>/c_<walk>.h, so that another library can include exactly that class as a foreign file.
-def base_header(j):
-    return ("#ifndef B%d_H\n#define B%d_H\nclass B%d {\n__published:\n  B%d();\n"
-            "  int v%d() const;\n};\n#endif\n" % (j, j, j, j, j))
+# Library content styles (one per library, part of the alphabet):
+#   0 ordinary       classes with published constructor and method, typedef edges used in a
+#                    published function                      -> the library has functions
+#   1 function-less  classes with protected constructors/destructor and only a published nested
+#                    enum, typedef edges unused              -> NO functions, NO manifests: the
+#                    library is known to interrogate_module through its global types only
+#   2 function-less + one published integer manifest         -> known through a manifest only
+STYLES = (0, 1, 2)
+
+
+def class_body(name, style, method):
+    if style == 0:
+        return "__published:\n  %s();\n  int %s() const;\n" % (name, method)
+    return ("__published:\n  enum E%s { e%s_a, e%s_b = 3 };\nprotected:\n  %s();\n  %s(const %s &copy);\n  ~%s();\n"
+            % (name, name.lower(), name.lower(), name, name, name, name))
+
+
+def base_header(j, style=0):
+    return ("#ifndef B%d_H\n#define B%d_H\nclass B%d {\n%s};\n%s#endif\n"
+            % (j, j, j, class_body("B%d" % j, style, "v%d" % j),
+               "__begin_publish\n#define MANIFEST_%d %d\n__end_publish\n" % (j, 40 + j) if style == 2 else ""))
 
 
 def wname(path):
@@ -85,15 +103,24 @@ def class_of(path):
     return "B%d" % path[0] if len(path) == 1 else "C_" + wname(path)
 
 
-def header_of(path):
-    return "l%d/b%d.h" % (path[0], path[0]) if len(path) == 1 else "l%d/c_%s.h" % (path[0], wname(path))
+def sfx(style):
+    return "" if style == 0 else "_s%d" % style
 
 
-def class_header(path):
+def local_header(path, styles):
+    st = styles[path[0]]
+    return "b%d%s.h" % (path[0], sfx(st)) if len(path) == 1 else "c_%s%s.h" % (wname(path), sfx(st))
+
+
+def header_of(path, styles):
+    return "l%d/%s" % (path[0], local_header(path, styles))
+
+
+def class_header(path, styles):
     n = wname(path)
-    return ("#ifndef C_%s_H\n#define C_%s_H\n#include \"%s\"\nclass C_%s : public %s {\n__published:\n"
-            "  C_%s();\n  int w_%s() const;\n};\n#endif\n"
-            % (n, n, header_of(path[1:]), n, class_of(path[1:]), n, n))
+    return ("#ifndef C_%s_H\n#define C_%s_H\n#include \"%s\"\nclass C_%s : public %s {\n%s};\n#endif\n"
+            % (n, n, header_of(path[1:], styles), n, class_of(path[1:]),
+               class_body("C_" + n, styles[path[0]], "w_" + n)))
 
 
 def derive_walks(g, t, depth):
@@ -111,21 +138,51 @@ def derive_walks(g, t, depth):
     return out
 
 
-def lib_content(g, j, depth):
-    """canonical content key of library j in graph g with chains up to `depth` edges."""
+class Content(tuple):
+    """(walk items..., ) with the styles of every library that occurs in them."""
+    def __new__(cls, items, styles):
+        self = tuple.__new__(cls, items)
+        self.styles = styles
+        return self
+
+    def sig(self):
+        return (tuple(self), self.styles)
+
+    def __hash__(self):
+        return hash(self.sig())
+
+    def __eq__(self, other):
+        return isinstance(other, Content) and self.sig() == other.sig()
+
+    def __ne__(self, other):
+        return not self.__eq__(other)
+
+    def __lt__(self, other):
+        return self.sig() < other.sig()
+
+    def __reduce__(self):
+        return (Content, (tuple(self), self.styles))
+
+
+def lib_content(g, j, depth, styles=None):
+    """canonical content key of library j in graph g with chains up to `depth` edges; the
+    styles of the libraries it mentions are part of the key (None entries: not mentioned)."""
+    styles = styles or (0,) * len(g)
     items = []
     for t in range(len(g)):
         if g[j][t]:
             for tail in derive_walks(g, t, depth - 1):
                 items.append((g[j][t], (j,) + tail))
-    return tuple(sorted(items, key=lambda it: (len(it[1]), it[1], it[0])))
+    items = tuple(sorted(items, key=lambda it: (len(it[1]), it[1], it[0])))
+    used = {j} | {v for _, p in items for v in p}
+    return Content(items, tuple(styles[v] if v in used else None for v in range(len(g))))
 
 
 def content_id(j, content):
-    if all(len(p) == 2 for _, p in content):
+    if all(len(p) == 2 for _, p in content) and not any(content.styles):
         code = {p[1]: kd for kd, p in content}
         return "l%d_%s" % (j, "".join(str(code.get(t, 0)) for t in range(1 + max([j] + list(code)))))
-    return "l%d_%s" % (j, hashlib.sha1(repr(content).encode()).hexdigest()[:14])
+    return "l%d_%s" % (j, hashlib.sha1(repr(content.sig()).encode()).hexdigest()[:14])
 
 
 def db_path(dbroot, k, j, content):
@@ -140,20 +197,19 @@ def write_library(root, k, j, content):
     """files of library j for one content; returns the stem of its main header."""
     d = os.path.join(root, "l%d" % j)
     stem = "x" + content_id(j, content)
-    out = ['#include "b%d.h"\n' % j]
+    styles = content.styles
+    out = ['#include "%s"\n' % local_header((j,), styles)]
     cmds = []
     for kind, path in content:                       # sorted by depth: own classes first
         if kind == 1:
-            fn = os.path.join(d, "c_%s.h" % wname(path))
-            if not os.path.exists(fn):
-                with open(fn + ".%d.tmp" % os.getpid(), "w") as f:
-                    f.write(class_header(path))
-                os.replace(fn + ".%d.tmp" % os.getpid(), fn)
-            out.append('#include "c_%s.h"\n' % wname(path))
+            fn = os.path.join(d, local_header(path, styles))
+            write_once(fn, class_header(path, styles))
+            out.append('#include "%s"\n' % local_header(path, styles))
         else:
             n = wname(path)
-            out.append('#include "%s"\ntypedef %s T_%s;\n__begin_publish\nint use_%s(T_%s *p);\n__end_publish\n'
-                       % (header_of(path[1:]), class_of(path[1:]), n, n, n))
+            out.append('#include "%s"\ntypedef %s T_%s;\n' % (header_of(path[1:], styles), class_of(path[1:]), n))
+            if styles[j] == 0:
+                out.append("__begin_publish\nint use_%s(T_%s *p);\n__end_publish\n" % (n, n))
             cmds.append("forcetype T_%s\n" % n)
     with open(os.path.join(d, stem + ".h"), "w") as f:
         f.write("".join(out))
@@ -163,16 +219,26 @@ def write_library(root, k, j, content):
     return d, stem
 
 
+def write_once(fn, text):
+    if not os.path.exists(fn):
+        tmp = "%s.%d.tmp" % (fn, os.getpid())
+        with open(tmp, "w") as f:
+            f.write(text)
+        os.replace(tmp, fn)
+
+
 def needed_class_headers(root, k, contents):
-    """every class header a foreign library may include must exist before any run."""
+    """every header a foreign library may include must exist before any run."""
     for j, content in contents:
+        styles = content.styles
+        for v, st in enumerate(styles):
+            if st is not None:
+                os.makedirs(os.path.join(root, "l%d" % v), exist_ok=True)
+                write_once(os.path.join(root, header_of((v,), styles)), base_header(v, st))
         for kind, path in content:
             for i in range(1 if kind == 2 else 0, len(path) - 1):
                 sub = path[i:]
-                fn = os.path.join(root, "l%d" % sub[0], "c_%s.h" % wname(sub))
-                if not os.path.exists(fn):
-                    with open(fn, "w") as f:
-                        f.write(class_header(sub))
+                write_once(os.path.join(root, header_of(sub, styles)), class_header(sub, styles))
 
 
 def gen_databases(b, root, k, contents, have=None, backend="-python-native"):
@@ -181,12 +247,7 @@ def gen_databases(b, root, k, contents, have=None, backend="-python-native"):
     have = have if have is not None else {}
     os.makedirs(os.path.join(root, "db"), exist_ok=True)
     for j in range(k):
-        d = os.path.join(root, "l%d" % j)
-        os.makedirs(d, exist_ok=True)
-        fn = os.path.join(d, "b%d.h" % j)
-        if not os.path.exists(fn):
-            with open(fn, "w") as f:
-                f.write(base_header(j))
+        os.makedirs(os.path.join(root, "l%d" % j), exist_ok=True)
     todo = sorted(set(c for c in contents if c not in have))
     needed_class_headers(root, k, todo)
     jobs = [(j, content) + write_library(root, k, j, content) for j, content in todo]
@@ -196,7 +257,7 @@ def gen_databases(b, root, k, contents, have=None, backend="-python-native"):
         out = os.path.join(root, "db", content_id(j, content) + ".in")
         r = tools.interrogate(b, ["-oc", os.path.join(d, stem + ".cxx"), "-od", out,
                                   "-module", "m", "-library", libname(j), backend,
-                                  "-I..", "b%d.h" % j, stem + ".h"], cwd=d)
+                                  "-I..", local_header((j,), content.styles), stem + ".h"], cwd=d)
         for ext in (".cxx", ".h", ".N"):
             try:
                 os.remove(os.path.join(d, stem + ext))
@@ -236,6 +297,12 @@ def check_databases(b, dbs, k):
                 ti, tt = byname.get("T_" + wname(p), (None, None))
                 if tt is None or ti not in glob or tt["wrapped_type"] != bi:
                     raise HarnessError("T_%s is not a global typedef of %s" % (wname(p), base))
+        st = content.styles[j]
+        if st and d["functions"]:
+            raise HarnessError("function-less library %d content %s has functions %s"
+                               % (j, content.sig(), [f["scoped_name"] for f in d["functions"].values()][:4]))
+        if (st == 2) != bool(d["manifests"]) or (st == 0 and not d["functions"]):
+            raise HarnessError("library %d style %s: %d manifests, %d functions" % (j, st, len(d["manifests"]), len(d["functions"])))
         want = {"B%d" % j} | {("C_" if kd == 1 else "T_") + wname(p) for kd, p in content}
         have_g = {d["types"][str(i)]["true_name"] for i in glob}
         if have_g != want:
@@ -429,8 +496,8 @@ def judge_graph(g, perm, obs, names=None):
 
 def graph_case(ctx, case, timeout=10):
     b, workdir, dbroot = ctx
-    k, g, perm, tag, depth = case
-    files = [db_path(dbroot, k, j, lib_content(g, j, depth)) for j in perm]
+    k, g, perm, tag, depth, styles = case
+    files = [db_path(dbroot, k, j, lib_content(g, j, depth, styles)) for j in perm]
     obs = run_module(b, workdir, tag, files, timeout=timeout)
     if obs["timeout"] and timeout < 100:
         obs = run_module(b, workdir, tag, files, timeout=100)       # alone, 10x
@@ -445,14 +512,21 @@ def graph_chunk(arg):
     workdir = os.path.join(workroot, "w%d" % wid)
     os.makedirs(workdir, exist_ok=True)
     res = []
-    for n, (k, g, perm, depth) in enumerate(cases):
-        problems, outcome, obs = graph_case((b, workdir, dbroot), (k, g, perm, "m", depth))
+    for n, (k, g, perm, depth, styles) in enumerate(cases):
+        problems, outcome, obs = graph_case((b, workdir, dbroot), (k, g, perm, "m", depth, styles))
         key = "k%dd%d/g%s/p%s" % (k, depth, graph_key(g), code_str(perm))
+        if any(styles):
+            key += "/s" + code_str(styles)
         nedges = sum(1 for r in g for c in r if c)
         if depth > 1:
             outcome = "chains " + outcome
+        if any(styles):
+            # is some base library function-less (known only through its global types)?
+            fl = any(g[j][t] and styles[t] == 1 for j in range(k) for t in range(k))
+            outcome = ("function-less base " if fl else "styled ") + outcome
         res.append((key, outcome, nedges > 0, problems,
-                    {"k": k, "depth": depth, "graph": [list(r) for r in g], "perm": list(perm), "rc": obs["rc"],
+                    {"k": k, "depth": depth, "styles": list(styles), "graph": [list(r) for r in g],
+                     "perm": list(perm), "rc": obs["rc"],
                      "stderr_head": obs["stderr"][:200]}))
     return res
 
@@ -649,10 +723,23 @@ def main():
 
     # (k, edge-kind mode, chain depth): depth 1 = classes derive from root classes only;
     # depth d = for every walk of <= d edges a class deriving from the previous walk's class
-    bounds = [(1, "all3", 1), (2, "all3", 1), (2, "all3", 2), (2, "all3", 3),
-              (3, "all3", 1), (3, "all3", 2), (3, "all3", 3)]
+    # (k, edge-kind mode, chain depth, style vectors)
+    def uniform(k):
+        return [(s_,) * k for s_ in STYLES]
+
+    def every(k):
+        return list(itertools.product(STYLES, repeat=k))
+    plain = lambda k: [(0,) * k]
+    bounds = [(1, "all3", 1, uniform(1)), (2, "all3", 1, every(2)), (2, "all3", 2, uniform(2)),
+              (2, "all3", 3, plain(2)),
+              (3, "all3", 1, uniform(3)), (3, "all3", 2, plain(3)), (3, "all3", 3, plain(3)),
+              # every library content vector x every graph with uniform edge kinds
+              (3, "derive", 1, every(3)), (3, "typedef", 1, every(3)), (3, "mixed", 1, every(3)),
+              (3, "derive", 2, uniform(3))]
     if thorough:
-        bounds += [(4, "derive", 1), (4, "typedef", 1), (4, "mixed", 1), (4, "derive", 2), (4, "mixed", 2)]
+        bounds += [(3, "all3", 1, every(3)), (3, "all3", 2, uniform(3)),
+                   (4, "derive", 1, uniform(4)), (4, "typedef", 1, plain(4)), (4, "mixed", 1, plain(4)),
+                   (4, "derive", 2, plain(4)), (4, "mixed", 2, plain(4))]
     done_bound = None
     seen_graphs = set()
     dbs_for = {}
@@ -670,20 +757,21 @@ def main():
                 else:
                     ck.extra["failing_cases_not_individually_reported"] = nfail[0] - 20
 
-    for (k, mode, depth) in bounds:
+    for (k, mode, depth, stylevecs) in bounds:
         kroot = os.path.join(dbroot, "k%d" % k)
         cases = []
         contents = set()
         for g in graphs(k, mode):
-            prog = tuple((j, lib_content(g, j, depth)) for j in range(k))
-            gk = (k, g, prog)            # the same graph with deeper chains is a new program only
-            if gk in seen_graphs:        # if a chain class actually appears
-                continue
-            seen_graphs.add(gk)
-            contents.update(prog)
-            states += 1
-            for perm in itertools.permutations(range(k)):
-                cases.append((k, g, perm, depth))
+            for styles in stylevecs:
+                prog = tuple((j, lib_content(g, j, depth, styles)) for j in range(k))
+                gk = (k, g, styles, prog)    # the same graph with deeper chains is a new program
+                if (k, g, prog) in seen_graphs:     # only if a chain class actually appears
+                    continue
+                seen_graphs.add((k, g, prog))
+                contents.update(prog)
+                states += 1
+                for perm in itertools.permutations(range(k)):
+                    cases.append((k, g, perm, depth, styles))
         dbs_for[k] = gen_databases(b, kroot, k, contents, dbs_for.get(k))
         ck.extra["databases_k%d" % k] = len(dbs_for[k])
         ctx = (b, workroot, dbroot)
@@ -698,7 +786,7 @@ def main():
                 break
             batch = [(ctx, c, i + n) for n, c in enumerate(cl[i:i + 64])]
             for res in pmap_proc(graph_chunk, batch):
-                handle(res, "graph k=%d %s depth=%d" % (k, mode, depth))
+                handle(res, "graph k=%d %s depth=%d%s" % (k, mode, depth, "" if len(stylevecs) == 1 else " styles=%d" % len(stylevecs)))
         if cut:
             break
         done_bound = "k=%d (%s, chain depth %d)" % (k, mode, depth)
@@ -806,7 +894,8 @@ def rerun(b, dbroot, wd, key, sample):
         return res[0][3], res[0]
     g = tuple(tuple(r) for r in sample["graph"])
     problems, outcome, obs = graph_case((b, wd, dbroot), (sample["k"], g, tuple(sample["perm"]), "c",
-                                                          sample.get("depth", 1)))
+                                                          sample.get("depth", 1),
+                                                          tuple(sample.get("styles") or (0,) * sample["k"])))
     return problems, (outcome, obs["rc"], obs["stderr"], parse_module(obs["text"]) if obs["text"] else None)
 
 
@@ -816,11 +905,12 @@ def replay(ck, b, dbroot, workroot):
     key = rp["key"]
     if not key.startswith("content/"):
         if key.startswith("fail/"):
-            k, g, depth = 3, FAIL_CHAIN, 1
+            k, g, depth, styles = 3, FAIL_CHAIN, 1, None
         else:
             k, g, depth = sample["k"], tuple(tuple(r) for r in sample["graph"]), sample.get("depth", 1)
+            styles = tuple(sample.get("styles") or (0,) * k)
         kroot = os.path.join(dbroot, "k%d" % k)
-        gen_databases(b, kroot, k, [(j, lib_content(g, j, depth)) for j in range(k)])
+        gen_databases(b, kroot, k, [(j, lib_content(g, j, depth, styles)) for j in range(k)])
     wd = os.path.join(workroot, "replay")
     os.makedirs(wd, exist_ok=True)
     problems, info = rerun(b, dbroot, wd, key, sample)
